@@ -148,6 +148,7 @@ func genLexCmd(in *bufio.Scanner, out *bufio.Writer, args []string) error {
 			// curly quotes in the other three pairings (which quote closes which is the lexer's rule, whatever it is)
 			{"’", "’"}, {"‘", "‘"}, {"’", "‘"}, {"”", "”"}, {"“", "“"}, {"”", "“"}}
 		bodies := []string{"", "a", "\n", "a\nb", "é", "a\nб", "вторая строка", "first line\nвторая строка", "日本\n語", "\r\n", "a\r\nb", ";", "a;\nb;\n", ";\n", "a;b", "$", "$x", "a$b$c",
+			"a\u2028b", "a\u2029b", "a\u0085b", "a\vb", "a\fb", "a\rb", "\u200b", "a\ufeffb",
 			"tmp/*/2024", "/*", "*/", "*", "/", "--", "#", "'", "''", "\\'", "\"", "\\\"", "`", "``", "\\`", "\\", "\\\\", "\\n", "\\x41", "\\x", "\x00", "\xff", "\t", "{", "}", "{p:UInt8}", "0x1f", "1e5"}
 		for _, c := range ctxs {
 			for _, b := range bodies {
